@@ -22,6 +22,15 @@ C->S : NIfTI files with exactly known rational affines (signed permutations,
        * one loaded image object used for several generations (every info
          case): nibabel_image_to_info, again with the other sharding choice,
          then store_nibabel_image_to_fullres_info - every result is judged;
+       * fine voxels: voxel sizes that are not a whole number of nanometres -
+         electron-microscopy scale (dyadic sizes from 0.12 nm up, exact in
+         NIfTI-1 float32 and NIfTI-2 headers; 4.3 / 35.5 / 0.8 / 2.4 nm as
+         binary64 in NIfTI-2, and the binary32 numbers nearest to them times
+         powers of two in NIfTI-1 for axis-aligned affines) and thirds /
+         sevenths of a millimetre (NIfTI-2); axis-aligned, rotated and sheared.
+         The plan's affine is expressed in its own small length unit (a pure
+         change of unit of oracle and observation alike) so that the exact
+         rationals stay small;
        * declared spatial unit: files whose header declares micron, meter, mm
          or no unit (xyzt_units).  The package reads every affine as
          millimetres (documented in nibabel_image_to_info); weaker reading
@@ -129,21 +138,29 @@ def small_denominators(D, vs, a, bound=1024):
     return True
 
 
-def make_plan(rng, nrng, kind, sp, D=None):
+def make_plan(rng, nrng, kind, sp, D=None, vs_pool=None, a_pool=None, lenunit=None, force_nifti=None):
+    """vs_pool / a_pool: other voxel sizes / translation components; lenunit: the
+    length unit (mm) in which D, vs, a are expressed (fine-voxel plans)"""
     fixed_D = D
     while True:
         D = fixed_D if fixed_D is not None else choose_direction(rng, kind, sp)
-        vs = [rng.choice(VS) for _ in range(3)]
+        vs = [rng.choice(vs_pool or VS) for _ in range(3)]
         if rng.random() < 0.15:
             vs = [vs[0]] * 3
-        a = [Fr(rng.randint(-256, 256), 8) for _ in range(3)]
+        a = [rng.choice(a_pool) for _ in range(3)] if a_pool else \
+            [Fr(rng.randint(-256, 256), 8) for _ in range(3)]
         if small_denominators(D, vs, a):
             break
     A = [[D[r][k] * vs[k] for k in range(3)] for r in range(3)]
-    exact32 = all(ad.float32_exact(A[r][k]) for r in range(3) for k in range(3)) and \
-        all(ad.float32_exact(x) for x in a)
+    lu = lenunit or Fr(1)
+    exact32 = all(ad.float32_exact(A[r][k] * lu) for r in range(3) for k in range(3)) and \
+        all(ad.float32_exact(x * lu) for x in a)
     p = {"kind": kind, "D": D, "vs": vs, "a": a, "A": A,
          "nifti": (1 if rng.random() < 0.8 else 2) if exact32 else 2}
+    if lenunit is not None:
+        p["lenunit"] = lenunit
+    if force_nifti == 2 or (force_nifti == 1 and exact32):
+        p["nifti"] = force_nifti
     lay = rng.choice(["3d", "3d", "3d", "4d", "4d", "rgb"])
     size = [rng.randint(1, 6) for _ in range(3)]
     if rng.random() < 0.7:
@@ -193,6 +210,35 @@ def make_zoom_plan(rng, nrng, kind, sp):
             break
     p["pixdim"] = pix
     p["qform"] = rng.choice(["unknown", "scanner"])
+    return p, data
+
+
+# fine voxels: sizes that are NOT a whole number of nanometres
+F32 = lambda x: Fr(float(np.float32(x)))                              # noqa: E731
+POW2 = [Fr(1, 2), Fr(1), Fr(2), Fr(4)]
+FINE = {
+    # dyadic EM scale, exact in binary32 and binary64: 2^-20 mm = 0.95 nm ... 2^-14 mm = 61 nm
+    "dyadic_em": dict(lenunit=[Fr(1, 2 ** 20), Fr(1, 2 ** 18), Fr(1, 2 ** 16), Fr(1, 2 ** 14)]),
+    # decimal EM scale in units of 10 nm: 4.3 nm, 35.5 nm, 0.8 nm, 2.4 nm, 12.5 nm (binary64 header)
+    "decimal_em": dict(lenunit=[Fr(1, 10 ** 5)], force_nifti=2,
+                       vs_pool=[Fr(43, 100), Fr(71, 20), Fr(2, 25), Fr(6, 25), Fr(5, 4)]),
+    # the binary32 numbers nearest to 4.3 nm, 35.5 nm, 0.8 nm as the length unit, times powers of
+    # two: exact in a NIfTI-1 (float32) header for axis-aligned affines
+    "float32_em": dict(lenunit=[F32(4.3e-6), F32(35.5e-6), F32(8e-7)], force_nifti=1, vs_pool=POW2,
+                       a_pool=[Fr(0), Fr(1), Fr(-2), Fr(8), Fr(-16), Fr(1, 2), Fr(32)]),
+    # thirds and sevenths of a millimetre (binary64 header)
+    "thirds": dict(vs_pool=[Fr(1, 3), Fr(2, 3), Fr(4, 3), Fr(1, 6), Fr(5, 3)], force_nifti=2),
+    "sevenths": dict(vs_pool=[Fr(1, 7), Fr(2, 7), Fr(3, 7), Fr(5, 7), Fr(8, 7)], force_nifti=2),
+}
+
+
+def make_fine_plan(rng, nrng, kind, sp, sub):
+    spec = dict(FINE[sub])
+    lus = spec.pop("lenunit", [Fr(1)])
+    if sub == "float32_em":
+        kind = "perm"               # other directions are not exact in float32
+    p, data = make_plan(rng, nrng, kind, sp, lenunit=rng.choice(lus), **spec)
+    p["fine"] = sub
     return p, data
 
 
@@ -283,6 +329,8 @@ def plan_json(p):
     for k in ("vs", "a", "pixdim"):
         if k in p:
             q[k] = [str(x) for x in p[k]]
+    if "lenunit" in p:
+        q["lenunit"] = str(p["lenunit"])
     return q
 
 
@@ -293,6 +341,8 @@ def plan_from_json(q):
     for k in ("vs", "a", "pixdim"):
         if k in q:
             p[k] = [Fr(x) for x in q[k]]
+    if "lenunit" in q:
+        p["lenunit"] = Fr(q["lenunit"])
     return p
 
 
@@ -309,7 +359,7 @@ def sig_of(p, res, clause, case):
             "nifti_version": p["nifti"], "scaled": p.get("slope") is not None,
             "ignore_scaling": bool(p.get("ignore_scaling")), "sharding": bool(p.get("sharding")),
             "pixdim_disagrees": bool(p.get("pixdim")), "qform": p.get("qform", "same"),
-            "declared_unit": p.get("xyzt", "default"),
+            "declared_unit": p.get("xyzt", "default"), "fine_voxels": p.get("fine", ""),
             "exc": res.get("exc", ""), "where": res.get("where", ""), "srcs": srcs,
             "nonrat": sorted({n for o in case["obs"] for n in o.get("nonrat", [])})}
 
@@ -350,6 +400,12 @@ def run(ctx):
         "'the info generated from a volume file' covers every generation, also a second or third one "
         "from an image object that was already used (only the sharding option is varied between "
         "them); that the image object itself is left unchanged is NOT demanded",
+        "fine-voxel plans give A, a in a small length unit u (2^-20..2^-14 mm, 10 nm, the binary32 number "
+        "nearest to 4.3e-6 / 35.5e-6 / 8e-7 mm, or 1 mm); the file holds the binary32/64 numbers nearest "
+        "to A*u (exactly A*u for dyadic u and for the NIfTI-1 plans, verified on the written file); the "
+        "printed nanometre values are divided by u (exactly) before the usual re-encoding; decimal sizes "
+        "such as 4.3 nm have no exact binary32 form that fits the 32-bit oracle for oblique affines, "
+        "these use NIfTI-2",
         "declared spatial unit (statement silent, weaker reading): a file that declares micron or meter "
         "may be read entirely as millimetres (what the package documents) or entirely in its declared "
         "unit; resolution, direction columns and translation must agree on ONE of the two; files "
@@ -407,6 +463,12 @@ def run(ctx):
     nrng3 = ctx.np_rng(3)
     for k in range(ctx.pick(32, 800)):
         plans.append(make_unit_plan(rng3, nrng3, ("perm", "rot", "shear")[k % 3], sp, XYZT_UNITS[k % 4]))
+    rng4 = random.Random(ctx.seed * 1000003 + 16 + 3 * 7919)
+    nrng4 = ctx.np_rng(4)
+    subs = sorted(FINE)
+    for k in range(ctx.pick(40, 1000)):
+        plans.append(make_fine_plan(rng4, nrng4, ("perm", "rot", "shear")[(k // len(subs)) % 3], sp,
+                                    subs[k % len(subs)]))
     histories = [make_history(rng3, nrng3, sp, ("replaced", "scaling_toggle")[k % 2])
                  for k in range(ctx.pick(24, 600))]
     done = []
@@ -440,7 +502,8 @@ def run(ctx):
                                       + [case["shape"], p["layout"], p["dtype"], p.get("slope"),
                                          p.get("ignore_scaling"), p.get("sharding")]
                                       + ([plan_json(p)["pixdim"], p["qform"]] if p.get("pixdim") else [])
-                                      + ([p["xyzt"]] if p.get("xyzt") else [])))
+                                      + ([p["xyzt"]] if p.get("xyzt") else [])
+                                      + ([str(p["lenunit"]), p["fine"]] if p.get("fine") else [])))
         st, clause, _ = verdicts[case["tid"]]
         if st != "ok":
             sg = sig_of(p, res, clause, case)
@@ -507,6 +570,8 @@ def run(ctx):
         "with_sharding_option": sum(1 for d in done if d[0].get("sharding")),
         "header_scaled": sum(1 for d in done if d[0].get("slope") is not None),
         "pixdim_disagrees_with_affine": sum(1 for d in done if d[0].get("pixdim")),
+        "fine_voxels_not_whole_nm": {u: sum(1 for d in done if d[0].get("fine") == u) for u in sorted(FINE)},
+        "fine_voxels_nifti1": sum(1 for d in done if d[0].get("fine") and d[0]["nifti"] == 1),
         "declared_spatial_unit": {u: sum(1 for d in done if d[0].get("xyzt") == u) for u in XYZT_UNITS},
         "generations_judged_per_case": "file, api, api2 (same image object, other sharding), store "
                                        "(same image object, storing function)"}
